@@ -242,4 +242,220 @@ theorem noRefGo_ins_alt (fx : Fixes) (h16 : fx.f16 = true) (query : Seq) (quals 
   simp only [noRefGo, hdw, hend, hsk, hql, List.nil_append, mapM', hh]
   simp [bind, Except.bind, pure, Except.pure, hpop, noRefGo_empty fx query quals C hC, hm]
 
+/-! ### REF carried by the read: the variant position lies inside an M/=/X block -/
+
+/-- the REF allele of a deletion after `j` matched bases with accumulated quality `q` -/
+def matAP (L j q : Nat) : AP := ⟨(j : Int), L, q, j, L, 0, 0, 0, 0⟩
+
+theorem qualSum_succ' (quals : Option (List Nat)) (q n : Nat) (h : 0 < n) :
+    qualSum quals q n = qualAt quals q + qualSum quals (q + 1) (n - 1) := by
+  obtain ⟨k, rfl⟩ : ∃ k, n = k + 1 := ⟨n - 1, by omega⟩
+  simp [qualSum]
+
+theorem matchLoop_all (query : Seq) (quals : Option (List Nat)) (ref : Seq) (q0 m d L : Nat)
+    (href : ∀ t, t < L → ∃ c, query[q0 + t]? = some c ∧ ref[t]? = some c)
+    (hq : ∀ l, quals = some l → q0 + L ≤ l.length) (hfit : d + L ≤ m)
+    (fuel j acc : Nat) (hj : j ≤ L) (hfuel : L - j ≤ fuel) :
+    matchLoop true query quals ref ((q0 + j : Nat) : Int) m fuel (matAP L j acc) (d + j) =
+      .ok (matAP L L (acc + qualSum quals (q0 + j) (L - j)), d + L) := by
+  induction fuel generalizing j acc with
+  | zero =>
+    have : j = L := by omega
+    subst this
+    simp [matchLoop, qualSum]
+  | succ f ih =>
+    by_cases hjL : j < L
+    · obtain ⟨c, hc1, hc2⟩ := href j hjL
+      have hcond : j < L ∧ d + j < m := ⟨hjL, by omega⟩
+      have hnext : ∀ qual, AP.mk ((j : Int) + 1) L (acc + qual) (j + 1) L 0 0 0 0 = matAP L (j + 1) (acc + qual) := by
+        intro qual
+        simp only [matAP, AP.mk.injEq]
+        refine ⟨by omega, trivial, trivial, trivial, trivial, trivial, trivial, trivial, trivial⟩
+      have hqp : ((q0 + j : Nat) : Int) + 1 = ((q0 + (j + 1) : Nat) : Int) := by omega
+      have hops : d + j + 1 = d + (j + 1) := by omega
+      have hgoal : ∀ qual, qual = qualAt quals (q0 + j) →
+          matchLoop true query quals ref ((q0 + (j + 1) : Nat) : Int) m f
+            (AP.mk ((j : Int) + 1) L (acc + qual) (j + 1) L 0 0 0 0) (d + (j + 1)) =
+          .ok (matAP L L (acc + qualSum quals (q0 + j) (L - j)), d + L) := by
+        intro qual hq'
+        subst hq'
+        rw [hnext, ih (j + 1) _ (by omega) (by omega), qualSum_succ' quals (q0 + j) (L - j) (by omega)]
+        have e1 : q0 + j + 1 = q0 + (j + 1) := by omega
+        have e2 : L - j - 1 = L - (j + 1) := by omega
+        rw [e1, e2, Nat.add_assoc]
+      simp only [matchLoop, matAP, hcond, and_self, if_true, pyGet_nat, hc1, Nat.add_zero, hc2, beq_self_eq_true,
+        hqp, hops]
+      cases quals with
+      | none => exact hgoal 30 rfl
+      | some l =>
+        have hl := hq l rfl
+        have hlt : q0 + j < l.length := by omega
+        simp only [List.getElem?_eq_getElem hlt]
+        exact hgoal _ (by simp [qualAt, List.getD, List.getElem?_eq_getElem hlt])
+    · have : j = L := by omega
+      subst this
+      rw [matchLoop_done _ _ _ _ _ _ _ _ _ (by simp [matAP])]
+      simp [qualSum]
+
+/-- the match handler on an allele with no (more) base to match: it fails iff it is not complete and the operation is
+not used up -/
+theorem handleMatch_nomatch (adv : Bool) (query : Seq) (quals : Option (List Nat)) (e : Entry) (qp m i : Nat) (a : AP)
+    (al : Seq) (hp : ¬ a.progress < 0) (hal : getAllele e.v i = some al) (hmt : ¬ a.matched < a.matchTarget) :
+    handleMatch adv query quals e qp m i a =
+      .ok (if (e.queryStart - (qp : Int)).toNat < m ∧ a.progress < a.length then { a with progress := -1 } else a) := by
+  simp only [handleMatch, hp, if_false, hal, matchLoop_done _ _ _ _ _ _ _ _ _ hmt]
+
+/-- pop loop: REF resolved (length `L > 0`), ALT failed -/
+theorem popResolved_del_ref (id : Nat) (v : Variant) (qs : Int) (L q la ma ia da : Nat) (hL : 0 < L) :
+    popResolved [⟨id, v, qs, [matAP L L q, apFailed la ma ia da]⟩] = ([(id, 0, q / L)], []) := by
+  have h2 : ¬ ((L : Int) < (L : Int)) := by omega
+  simp [popResolved, resolvedIdx, pendingIdx, enumFrom, yieldOf, pickLongest, apFailed, matAP, neg_one_ne_nat, hL]
+
+/-- pop loop: REF of length 0 resolved, ALT failed -/
+theorem popResolved_ins_ref (id : Nat) (v : Variant) (qs : Int) (la ma ia da : Nat) :
+    popResolved [⟨id, v, qs, [AP.mk' 0 0 0, apFailed la ma ia da]⟩] = ([(id, 0, 30)], []) := by
+  simp [popResolved, resolvedIdx, pendingIdx, enumFrom, yieldOf, pickLongest, apFailed, AP.mk', neg_one_ne_nat]
+
+/-- a read matching REF of a deletion variant through (repaired match handler): REF, with the mean base quality -/
+theorem noRefGo_del_ref (fx : Fixes) (h13 : fx.f13 = true) (query : Seq) (quals : Option (List Nat)) (anch : Bool)
+    (rp qp id pos : Nat) (ref : Seq) (mop m : Nat) (C : Cigar) (hm : isMatch mop = true) (hL : 0 < ref.length)
+    (hlo : rp ≤ pos) (hhi : pos + ref.length ≤ rp + m)
+    (href : slice query (qp + (pos - rp)) ref.length = ref)
+    (hquals : ∀ l, quals = some l → l.length = query.length) (hC : ∀ p ∈ C, p.1 ≤ 8) :
+    noRefGo fx query quals anch rp qp [(id, ⟨pos, ref, [[]]⟩)] [] ((mop, m) :: C) =
+      ([(id, 0, qualSum quals (qp + (pos - rp)) ref.length / ref.length)], none) := by
+  generalize hd : pos - rp = d at *
+  have h1 : (mop == 1) = false := by
+    cases h' : (mop == 1) with
+    | false => rfl
+    | true => have := eq_of_beq h'; subst this; simp [isMatch] at hm
+  have h2 : (mop == 2) = false := by
+    cases h' : (mop == 2) with
+    | false => rfl
+    | true => have := eq_of_beq h'; subst this; simp [isMatch] at hm
+  have h3 : (mop == 3) = false := by
+    cases h' : (mop == 3) with
+    | false => rfl
+    | true => have := eq_of_beq h'; subst this; simp [isMatch] at hm
+  have h4 : (mop == 4) = false := by
+    cases h' : (mop == 4) with
+    | false => rfl
+    | true => have := eq_of_beq h'; subst this; simp [isMatch] at hm
+  have h56 : (mop == 5 || mop == 6) = false := by
+    cases h' : (mop == 5 || mop == 6) with
+    | false => rfl
+    | true =>
+      simp only [Bool.or_eq_true, beq_iff_eq] at h'
+      rcases h' with rfl | rfl <;> simp [isMatch] at hm
+  have hlt : ¬ (pos ≥ rp + m) := by omega
+  have hl0 : ¬ (ref.length = 0) := by omega
+  have hqs : (qp : Int) + (pos : Int) - (rp : Int) = ((qp + d : Nat) : Int) := by omega
+  have hql : ∀ sk, queueLoop sk mop rp qp (rp + m) [(id, ⟨pos, ref, [[]]⟩)] =
+      ([⟨id, ⟨pos, ref, [[]]⟩, ((qp + d : Nat) : Int), [AP.mk' ref.length 0 0, AP.mk' 0 0 ref.length]⟩], []) := by
+    intro sk
+    have hne2 : (mop != 2) = true := by simp [bne, h2]
+    simp [queueLoop, hlt, hl0, h1, h2, hne2, bvp_del, hqs]
+  have hend : (if (fx.f16 && mop == 1) = true then rp + 1 else rp + m) = rp + m := by simp [h1]
+  have hdw := dropWhile_single id ⟨pos, ref, [[]]⟩ rp hlo
+  -- the length of the query slice
+  have hlen : qp + d + ref.length ≤ query.length := by
+    have := congrArg List.length href
+    simp only [slice, List.length_take, List.length_drop] at this
+    omega
+  have hst : (((qp + d : Nat) : Int) - (qp : Int)).toNat = d := by omega
+  have hfuel : m - d = (m - d - 1) + 1 := by omega
+  have hREF : handleMatch fx.f13 query quals ⟨id, ⟨pos, ref, [[]]⟩, ((qp + d : Nat) : Int),
+        [AP.mk' ref.length 0 0, AP.mk' 0 0 ref.length]⟩ qp m 0 (AP.mk' ref.length 0 0)
+      = .ok (matAP ref.length ref.length (qualSum quals (qp + d) ref.length)) := by
+    have hmk : AP.mk' ref.length 0 0 = matAP ref.length 0 0 := by simp [AP.mk', matAP]
+    have hp : ¬ ((matAP ref.length 0 0).progress < 0) := by simp [matAP]
+    have hal : getAllele ⟨pos, ref, [[]]⟩ 0 = some ref := by simp [getAllele]
+    have hcast : ((qp + d : Nat) : Int) + (((matAP ref.length 0 0).matched : Nat) : Int)
+        + (((matAP ref.length 0 0).inserted : Nat) : Int) = ((qp + d : Nat) : Int) := by simp [matAP]
+    have hml := matchLoop_all query quals ref (qp + d) m d ref.length (slice_pointwise query ref (qp + d) href)
+      (fun l hl => by have := hquals l hl; omega) (by omega) (m - d) 0 0 (Nat.zero_le _) (by omega)
+    rw [hmk]
+    simp only [handleMatch, hp, if_false, hal, hst, hcast, h13]
+    simp only [Nat.add_zero, Nat.sub_zero, Nat.zero_add] at hml
+    rw [hml]
+    simp [matAP]
+  have hALT : handleMatch fx.f13 query quals ⟨id, ⟨pos, ref, [[]]⟩, ((qp + d : Nat) : Int),
+        [AP.mk' ref.length 0 0, AP.mk' 0 0 ref.length]⟩ qp m 1 (AP.mk' 0 0 ref.length)
+      = .ok (apFailed ref.length 0 0 ref.length) := by
+    rw [handleMatch_nomatch _ _ _ _ _ _ _ _ [] (by simp [AP.mk']) (by simp [getAllele]) (by simp [AP.mk'])]
+    have : d < m := by omega
+    simp only [hst, this, true_and]
+    simp [AP.mk', hL, apFailed]
+  have hh : handleEntry fx.f13 mop query quals qp m
+      ⟨id, ⟨pos, ref, [[]]⟩, ((qp + d : Nat) : Int), [AP.mk' ref.length 0 0, AP.mk' 0 0 ref.length]⟩ =
+      .ok ⟨id, ⟨pos, ref, [[]]⟩, ((qp + d : Nat) : Int),
+        [matAP ref.length ref.length (qualSum quals (qp + d) ref.length), apFailed ref.length 0 0 ref.length]⟩ := by
+    simp only [handleEntry, hm, if_true, mapIdxM, hREF, hALT]
+    rfl
+  generalize ((qp + d : Nat) : Int) = qs at hql hh
+  have hpop := popResolved_del_ref id ⟨pos, ref, [[]]⟩ qs ref.length
+    (qualSum quals (qp + d) ref.length) ref.length 0 0 ref.length hL
+  simp only [noRefGo, hdw, hend, hql, List.nil_append, mapM', hh, h3, h4, h56]
+  simp [bind, Except.bind, pure, Except.pure, hpop, noRefGo_empty fx query quals C hC, hm]
+
+/-- a read matching through the position of an insertion variant (anchor and next base in the same block): REF -/
+theorem noRefGo_ins_ref (fx : Fixes) (query : Seq) (quals : Option (List Nat)) (anch : Bool)
+    (rp qp id pos : Nat) (ins : Seq) (mop m : Nat) (C : Cigar) (hm : isMatch mop = true) (h0 : 0 < ins.length)
+    (hlo : rp < pos) (hhi : pos < rp + m) (hC : ∀ p ∈ C, p.1 ≤ 8) :
+    noRefGo fx query quals anch rp qp [(id, ⟨pos, [], [ins]⟩)] [] ((mop, m) :: C) = ([(id, 0, 30)], none) := by
+  generalize hd : pos - rp = d at *
+  have h1 : (mop == 1) = false := by
+    cases h' : (mop == 1) with
+    | false => rfl
+    | true => have := eq_of_beq h'; subst this; simp [isMatch] at hm
+  have h2 : (mop == 2) = false := by
+    cases h' : (mop == 2) with
+    | false => rfl
+    | true => have := eq_of_beq h'; subst this; simp [isMatch] at hm
+  have h3 : (mop == 3) = false := by
+    cases h' : (mop == 3) with
+    | false => rfl
+    | true => have := eq_of_beq h'; subst this; simp [isMatch] at hm
+  have h4 : (mop == 4) = false := by
+    cases h' : (mop == 4) with
+    | false => rfl
+    | true => have := eq_of_beq h'; subst this; simp [isMatch] at hm
+  have h56 : (mop == 5 || mop == 6) = false := by
+    cases h' : (mop == 5 || mop == 6) with
+    | false => rfl
+    | true =>
+      simp only [Bool.or_eq_true, beq_iff_eq] at h'
+      rcases h' with rfl | rfl <;> simp [isMatch] at hm
+  have hlt : ¬ (pos ≥ rp + m) := by omega
+  have hne : ¬ (pos = rp) := by omega
+  have hqs : (qp : Int) + (pos : Int) - (rp : Int) = ((qp + d : Nat) : Int) := by omega
+  have hql : ∀ sk, queueLoop sk mop rp qp (rp + m) [(id, ⟨pos, [], [ins]⟩)] =
+      ([⟨id, ⟨pos, [], [ins]⟩, ((qp + d : Nat) : Int), [AP.mk' 0 0 0, AP.mk' 0 ins.length 0]⟩], []) := by
+    intro sk
+    have hne2 : (mop != 2) = true := by simp [bne, h2]
+    simp [queueLoop, hlt, hne, h1, h2, hne2, bvp_ins, hqs]
+  have hend : (if (fx.f16 && mop == 1) = true then rp + 1 else rp + m) = rp + m := by simp [h1]
+  have hdw := dropWhile_single id ⟨pos, [], [ins]⟩ rp (Nat.le_of_lt hlo)
+  have hst : (((qp + d : Nat) : Int) - (qp : Int)).toNat = d := by omega
+  have hREF : handleMatch fx.f13 query quals ⟨id, ⟨pos, [], [ins]⟩, ((qp + d : Nat) : Int),
+        [AP.mk' 0 0 0, AP.mk' 0 ins.length 0]⟩ qp m 0 (AP.mk' 0 0 0) = .ok (AP.mk' 0 0 0) := by
+    rw [handleMatch_nomatch _ _ _ _ _ _ _ _ [] (by simp [AP.mk']) (by simp [getAllele]) (by simp [AP.mk'])]
+    simp [AP.mk']
+  have hALT : handleMatch fx.f13 query quals ⟨id, ⟨pos, [], [ins]⟩, ((qp + d : Nat) : Int),
+        [AP.mk' 0 0 0, AP.mk' 0 ins.length 0]⟩ qp m 1 (AP.mk' 0 ins.length 0)
+      = .ok (apFailed ins.length 0 ins.length 0) := by
+    rw [handleMatch_nomatch _ _ _ _ _ _ _ _ ins (by simp [AP.mk']) (by simp [getAllele]) (by simp [AP.mk'])]
+    have : d < m := by omega
+    simp only [hst, this, true_and]
+    simp [AP.mk', h0, apFailed]
+  have hh : handleEntry fx.f13 mop query quals qp m
+      ⟨id, ⟨pos, [], [ins]⟩, ((qp + d : Nat) : Int), [AP.mk' 0 0 0, AP.mk' 0 ins.length 0]⟩ =
+      .ok ⟨id, ⟨pos, [], [ins]⟩, ((qp + d : Nat) : Int), [AP.mk' 0 0 0, apFailed ins.length 0 ins.length 0]⟩ := by
+    simp only [handleEntry, hm, if_true, mapIdxM, hREF, hALT]
+    rfl
+  generalize ((qp + d : Nat) : Int) = qs at hql hh
+  have hpop := popResolved_ins_ref id ⟨pos, [], [ins]⟩ qs ins.length 0 ins.length 0
+  simp only [noRefGo, hdw, hend, hql, List.nil_append, mapM', hh, h3, h4, h56]
+  simp [bind, Except.bind, pure, Except.pure, hpop, noRefGo_empty fx query quals C hC, hm]
+
 end WhVerif.C06
